@@ -171,6 +171,13 @@ WellFormedSig(s) ==
 CallType(k) == IF k \in {"objRef", "objVal", "constObjRef"} THEN "obj" ELSE k
 CallSig(s, k) == [i \in 1..(NP(s) - k) |-> CallType(s.ps[i])]
 CallSigs(s) == {CallSig(s, k) : k \in 0..s.nd}
+(* the type a wrapper parameter has in the database: object pointers, references and values all become
+   K0 *, C strings and std::string both become the atomic string.  The database describes a wrapper by its
+   parameter types only, so two overloads whose wrappers have the same parameter types cannot be told apart
+   through it ("the variant named in the wrapper's database entry" is not defined): outside the domain. *)
+WrapType(k) == CASE k \in {"objPtr", "objRef", "objVal"} -> "pK0" [] k = "constObjRef" -> "pcK0"
+                 [] k \in StrKinds -> "str" [] OTHER -> k
+WrapSigs(s) == {[i \in 1..(NP(s) - k) |-> WrapType(s.ps[i])] : k \in 0..s.nd}
 
 \* two signatures that would be declared under one C++ name in one scope
 OpName(s) == IF s.fk \in {"opIndex", "opCall", "opAsg", "opEq", "ctor"} THEN s.fk
@@ -183,7 +190,8 @@ SameName(a, b) ==
 \* what the header must satisfy to be valid C++ whose every variant call is unambiguous
 Compatible(a, b) ==
   SameName(a, b) =>
-    /\ CallSigs(a) \cap CallSigs(b) = {}
+    \* (a const and a non-const member function may share a parameter list: they differ in `this`)
+    /\ ((CallSigs(a) \cap CallSigs(b) = {} /\ WrapSigs(a) \cap WrapSigs(b) = {}) \/ {a.fk, b.fk} = {"method", "cmethod"})
     /\ a.fk # "opCast"                                    \* one conversion function per target type
     \* a static and a non-static member function cannot be overloaded on the same parameter list; keep the
     \* flavours of one name equal except for method / const method
